@@ -154,6 +154,7 @@ def probe_sc(ctx, payload):
             munoise = tol.mu_noise(case, shift=a)
             noise = tol.wt_noise(case, base.cfg, base.tau, meta["levels"])
             jump = tol.vt_jump(case, base.cfg, base.tau, meta["levels"])
+            vnoise = tol.vt_noise(case, base.cfg, base.tau, meta["levels"])
             bad = None
             for i, t in enumerate(case["teams"]):
                 tv = math.fsum(q[1] ** 2 + base.tau ** 2 for q in t)
@@ -164,7 +165,7 @@ def probe_sc(ctx, payload):
                     share = (p[1] ** 2 + base.tau ** 2) / tv
                     d1 = m1 - p[0]
                     d2 = m2 - (p[0] + a)
-                    tmu = tol.R * max(abs(d1), abs(d2)) + munoise + share * jump[i]
+                    tmu = tol.R * max(abs(d1), abs(d2)) + munoise + share * (jump[i] + vnoise[i])
                     ctx.frac(f"shift_mu/{kind}", abs(d1 - d2) / tmu if tmu > 0 else (0 if d1 == d2 else math.inf))
                     if not abs(d1 - d2) <= tmu:
                         bad = bad or dict(what="mu", slot=[i, j], dmu_base=d1, dmu_shifted=d2, a=a, tol=tmu)
